@@ -126,6 +126,9 @@ func isInt(t types.Type) bool {
 	return ok && b.Info()&types.IsInteger != 0
 }
 
+// WordBits is the width of int/uint/uintptr of the program under analysis (64, or 32 for the GOARCH=386 pass).
+var WordBits = 64
+
 func intBits(t types.Type) (bits int, unsigned bool) {
 	b, ok := t.Underlying().(*types.Basic)
 	if !ok {
@@ -138,7 +141,9 @@ func intBits(t types.Type) (bits int, unsigned bool) {
 		return 16, true
 	case types.Uint32:
 		return 32, true
-	case types.Uint64, types.Uint, types.Uintptr:
+	case types.Uint, types.Uintptr:
+		return WordBits, true
+	case types.Uint64:
 		return 64, true
 	case types.Int8:
 		return 8, false
@@ -146,7 +151,9 @@ func intBits(t types.Type) (bits int, unsigned bool) {
 		return 16, false
 	case types.Int32:
 		return 32, false
-	case types.Int64, types.Int:
+	case types.Int:
+		return WordBits, false
+	case types.Int64:
 		return 64, false
 	}
 	return 0, false
@@ -217,8 +224,8 @@ func (p *F) LinOf(v ssa.Value) Lin {
 			switch {
 			case fu && tb > fb: // unsigned widening
 				return p.LinOf(x.X)
-			case fu && !tu && tb == fb && fb == 64:
-				// uint64/uint -> int: may become negative; atom
+			case fu && !tu && tb <= fb:
+				// same-width (or narrowing) unsigned -> signed: may become negative; atom
 			case !fu && !tu && tb >= fb: // signed widening
 				return p.LinOf(x.X)
 			case fu && tu && tb >= fb:
